@@ -17,7 +17,28 @@ func (g *Gen) newVC(name string, fn *ssa.Function, fc *FuncContract) *VC {
 	}
 	d.heapSort["$alloc"] = "Int"
 	vc := &VC{g: g, d: d, fn: fn, c: fc, name: name, cdecl: map[string]bool{}, notes: map[string]bool{}, ghostT: map[string]types.Type{},
-		strLits: map[string]bool{}, ghostDefs: map[string]*ghostDef{}, heapsRead: map[string]bool{}, pureDefs: map[string]bool{}, definingRec: map[string]bool{}}
+		strLits: map[string]bool{}, ghostDefs: map[string]*ghostDef{}, heapsRead: map[string]bool{}, pureDefs: map[string]bool{}, definingRec: map[string]bool{}, immutable: map[string]bool{}}
+	for _, im := range g.immutables {
+		p := g.byPath[im[0]]
+		if p == nil {
+			continue
+		}
+		tn, ok := p.Types.Scope().Lookup(im[1]).(*types.TypeName)
+		if !ok {
+			continue
+		}
+		st, ok := tn.Type().Underlying().(*types.Struct)
+		if !ok {
+			continue
+		}
+		for i := 0; i < st.NumFields(); i++ {
+			if st.Field(i).Name() == im[2] {
+				if _, isS := isStructT(st.Field(i).Type()); !isS {
+					vc.immutable[d.fieldHeap(tn.Type(), i)] = true
+				}
+			}
+		}
+	}
 	return vc
 }
 
